@@ -161,6 +161,16 @@ def collide_cases(ctx, opts, tag):
             u = ctx.rng.choice(['1', '3', '15'])
             ops += [f"P~{u}:{A}~0~U~~", f"P~{u}:{B}~0~U~~", f"R~{u}:{A}~{u}:{B}", f"P~{u}:{A.lower()}~0~U~~", f"R~{u}:{A}~{u}:{B.lower()}", f"L~{u}:{B.lower()}", f"U~{u}:{B.lower()}", f"P~{C}~0~U~~", f"R~{u}:{A}~{u}:{C}", f"R~{u}:{C}~{u}:{A}", f"P~{u}:{C}~0~U~~",
                     f"R~{C}~{B}", f"D~{u}:{B}", f"R~{u}:{A}~{u}:{B}"]
+        # a name of the greatest length, then the same name with one more character: nothing may be done to the file through the
+        # longer name (delete, lock, unlock, rename, retype, store), which names no file
+        full = {'dos33': 'ABCDEFGHIJKLMNOPQRSTUVWXYZ1234', 'dos32': 'ABCDEFGHIJKLMNOPQRSTUVWXYZ1234', 'prodos': 'ABCDEFGHIJKLMNO', 'pascal': 'ABCDEFGHIJKLMNO',
+                'cpm2': 'LONGNAME.EXT', 'cpm3': 'LONGNAME.EXT', 'fat': 'LONGNAME.EXT'}[fs]
+        over = full + '5' if '.' not in full else 'LONGNAMEXYZ.EXTRA'
+        over2 = full + '5' if '.' not in full else 'LONGNAME.EXTRA'
+        if opts != '-':
+            ops += [f"P~{full}~0-1~U~~", f"D~{over}", f"L~{over}", f"U~{over}", f"R~{over}~ZZ", f"D~{over2}", f"R~{over2}~ZZ", f"P~{over}~0~U~~", f"D~{full}"]
+            if fs in ('dos33', 'dos32', 'prodos'):
+                ops.insert(-1, f"T~{over}~bin~768")
         if fs == 'fat' and opts != '-':      # (the abstract model has no label: oracle stream only)
             # the volume label (VOLLBL on this kind) is no file: it cannot be deleted, renamed or locked, and its name stays taken
             ops += ["D~VOLLBL", "R~VOLLBL~OTHER", "L~VOLLBL", "P~VOLLBL~0~U~~", "D~VOLLBL"]
@@ -185,6 +195,9 @@ def bigfile_cases(ctx, opts, tag):
         ops = [f"P~A{ext}~0~U~~~v", f"P~B{ext}~0-1~U~~~v", f"D~A{ext}", f"Z~{ctx.rng.choice([0, 1, 3])}",
                f"D~{z0}", f"P~C{ext}~0~U~~~v", f"P~E{ext}~0-2~U~~~v", f"D~C{ext}",
                f"Z~2", f"D~{z0}", f"P~G{ext}~0~U~~~v", f"D~B{ext}"]
+        if fs == 'pascal' and opts != '-':
+            # a file of more blocks than a 16 bit count holds cannot be stored, and the attempt leaves the other files alone
+            ops = [f"P~A{ext}~0~U~~~v", f"P~B{ext}~0-1~U~~~v", f"D~A{ext}", f"P~HUGE{ext}~0-65536~U~~", f"P~C{ext}~0~U~~~v", f"P~HUGE{ext}~0-65535~U~~"] + ops
         out.append(f"fsh {tag}{i} {fs} {lab} {opts} {';'.join(ops)}")
     return out
 
@@ -220,6 +233,14 @@ def subdir_cases(ctx, opts, tag):
                f"R~PLAIN{ext}/B{ext}~C{ext}", f"D~PLAIN{ext}/B{ext}", f"L~D1/IN{ext}/X"]
         out.append(f"fsh {tag}{k} {fs} {lab} {opts} {';'.join(ops)}")
         k += 1
+        # a full directory on a volume with one unit left: the directory can still grow, but the file (or the new directory) that made it
+        # grow finds no room; what was in the directory must stay readable, in this session and after saving
+        n = first - used0
+        for last_op in (f"P~D1/BIG{ext}~0-1~U~~", "M~D1/SUB"):
+            # (the one unit left is one that held a file before: its old content must not be taken for directory entries)
+            ops = ["M~D1"] + [f"P~D1/F{i}{ext}~0~U~~~v" for i in range(n)] + [f"P~KEEP{ext}~0-2~U~~~v", f"P~ONE{ext}~0~U~~~v", "Z~0", f"D~ONE{ext}", last_op, f"D~KEEP{ext}", f"P~D1/AFTER{ext}~0~U~~~v"]
+            out.append(f"fsh {tag}{k} {fs} {lab} {opts} {';'.join(ops)}")
+            k += 1
         # a name is taken by whatever holds it: a file cannot take the name of a directory beside it, nor a directory that of a file
         # or of another directory, by rename, put or mkdir; in the root and one level down
         for pre in ('', 'D1/'):
